@@ -14,9 +14,9 @@ NEGZERO_SIG = "C04:negative-zero-float-field-lost"
 
 def run(ctx):
     quick = ctx.quick()
-    cres, thm, ref, ref_err, bins, berr, units = common_setup(ctx, PROPS, 3 if quick else 40, [wide_spec(ctx)])
-    nrand = 5 if quick else 40
-    ntl1 = 10 if quick else 80
+    cres, thm, ref, ref_err, bins, berr, units = common_setup(ctx, PROPS, 3 if quick else 9, [wide_spec(ctx)])
+    nrand = 5 if quick else 15
+    ntl1 = 10 if quick else 30
     stats = {"schemas": 0, "types": 0, "conv_ops": 0, "json_ops": 0, "tl1_values": 0, "go_random_values": 0, "kernel_rejected": 0,
              "units_outside_model": 0, "negzero_cases": 0, "fillrandom_failures_left_to_C18": 0, "budget_skips": 0, "model_enc1_none": 0}
     mism, bad, negz, samples, unit_errors, skipped = [], [], [], [], [], []
